@@ -683,13 +683,13 @@ class Qcow2L2Cache(Suite):
 
 class VmdkGtCache(Suite):
     """Amortised metadata I/O over a multi-extent VMDK: 2..4 sparse extents of 40..110 grain tables each (every extent's
-    working set below the 128 tables its reader keeps, the sum above), one grain per table, three round-robin passes of
+    working set below the 128 tables its reader keeps, the sum above), one grain per table, five round-robin passes of
     one-sector reads over all tables of all extents.  Each table is loaded once: the passes cost the mapping metadata
     plus a small multiple of the requested bytes, not (passes x tables)."""
     name = "vmdk_gtcache"
     fmt = "vmdk"
     per_case_timeout = 120.0
-    GS, GTE = 8, 16                 # sectors per grain, entries per table
+    GS, GTE, PASSES = 8, 128, 5     # sectors per grain, entries per table (one sector of table), passes
 
     def generate(self, rng, tier):
         out = []
@@ -732,7 +732,7 @@ class VmdkGtCache(Suite):
         for f, _, _ in files:
             f.reset_counters()
         wrong = nreq = 0
-        for rnd in range(3):
+        for rnd in range(self.PASSES):
             for f, where, _ in files:
                 for gsec, foff in where:
                     r = v.read_sectors(gsec + rnd, 1)
@@ -752,9 +752,10 @@ class VmdkGtCache(Suite):
         fs = []
         ntab = sum(case["tables"])
         tsize = self.GTE * 4
-        bound = ntab * 512 + impl_res["nreq"] * 4 * 512       # every table (one sector at most) once + a few sectors per request
+        # every table once (twice allowed) + a few grains and sectors per request
+        bound = 2 * ntab * tsize + impl_res["nreq"] * (3 * self.GS * 512 + 4 * 512)
         if impl_res["table_bytes"] > 2 * ntab * tsize or impl_res["bytes"] > bound:
-            fs.append(Finding("impl_vs_spec", f"vmdk: three passes over {ntab} grain tables of {tsize} bytes in {len(case['tables'])} "
+            fs.append(Finding("impl_vs_spec", f"vmdk: {self.PASSES} passes over {ntab} grain tables of {tsize} bytes in {len(case['tables'])} "
                               f"extents ({case['tables']}, each below the per-extent cache) read {impl_res['table_bytes']} table "
                               f"bytes, {impl_res['bytes']} bytes in all; loading each table once needs {ntab * tsize} "
                               f"(bound {bound} in all)", "vmdk:gtcache:bytes"))
